@@ -395,26 +395,28 @@ func (ims *inmemService) saveStateUnsafe() error {
 	}
 
 	fn := path.Join(ims.Config.WorkingDir, cIdxFileName)
-	_, err := os.Stat(fn)
-	var bFn string
-	if !os.IsNotExist(err) {
-		bFn = path.Join(ims.Config.WorkingDir, cIdxBackupFileName)
-		err = os.Rename(fn, bFn)
-	} else {
-		err = nil
-	}
-
-	if err != nil {
-		return errors.Wrapf(err, "could not rename file %s to %s", fn, bFn)
-	}
-
 	data, err := json.Marshal(ims.tmap)
 	if err != nil {
 		return errors.Wrapf(err, "could not marshal tmap ")
 	}
 
-	if err = ioutil.WriteFile(fn, data, 0640); err != nil {
-		return errors.Wrapf(err, "could not write file %s ", fn)
+	// write the new content next to the file and rename it over: at every crash point the file is
+	// either the old or the new complete content. The previous content is kept as the backup.
+	tmpFn := fn + ".tmp"
+	if err = ioutil.WriteFile(tmpFn, data, 0640); err != nil {
+		return errors.Wrapf(err, "could not write file %s ", tmpFn)
+	}
+
+	if _, err = os.Stat(fn); err == nil {
+		bFn := path.Join(ims.Config.WorkingDir, cIdxBackupFileName)
+		_ = os.Remove(bFn)
+		if err = os.Link(fn, bFn); err != nil {
+			return errors.Wrapf(err, "could not link file %s to %s", fn, bFn)
+		}
+	}
+
+	if err = os.Rename(tmpFn, fn); err != nil {
+		return errors.Wrapf(err, "could not rename file %s to %s", tmpFn, fn)
 	}
 
 	return nil
